@@ -5,20 +5,25 @@
 //! history; it is expanded by rebuilding the handler from the history and then applying every
 //! message of the alphabet to that state (the store content is put back after each message that
 //! changed something). Canonical key = sorted zone content + empty RRset keys + serial delta.
+//! The search follows `vcore::bfs` (same dedup / deterministic merge order) but splits the
+//! expansion of one node into alphabet chunks so that shallow levels use all workers.
 //!
 //! Oracle (per transition): `vref::update` (RFC 2136 3.2-3.4 pseudocode + RFC 1982), fed with the
 //! raw request bytes and the implementation's pre-state, gives the set of acceptable rcodes and
 //! the acceptable resulting zones; plus the zone invariants and the serial clause of the
-//! property statement.
+//! property statement. Only states reached through conforming transitions are expanded: the
+//! first non-conforming step of any history is therefore always the judged last step of a
+//! history whose prefix conforms.
 
 mod alphabet;
 mod keying;
 
-use std::collections::BTreeSet;
+use std::collections::{BTreeSet, HashSet};
 use std::sync::atomic::{AtomicU64, Ordering};
+use std::sync::Mutex;
 
 use serde_json::{json, Value};
-use vcore::{catch, fnv_str, Ctx, Local};
+use vcore::{catch, Ctx, Local};
 use vref::update as ru;
 use vupd::{Env, EnvOpts, Msg, Rr, Snap};
 
@@ -28,7 +33,8 @@ use alphabet::{Config, MsgSpec};
 #[derive(Clone, Debug, PartialEq, Eq)]
 pub struct Finding {
     pub clause: String,
-    /// short expected/observed descriptor that is part of the key
+    /// short observed-behaviour descriptor that is part of the key (and must stay the same while
+    /// the witness is minimised)
     pub detail: String,
     pub what: String,
 }
@@ -40,8 +46,34 @@ pub struct StepOut {
     pub findings: Vec<Finding>,
     pub ref_accepted: bool,
     pub changed: bool,
-    pub panic: Option<String>,
-    pub digest: u64,
+    pub observations: Vec<&'static str>,
+    pub panicked: bool,
+}
+
+impl StepOut {
+    /// Everything the oracle looked at, for the determinism self-test.
+    pub fn digest(&self) -> u64 {
+        vupd::digest(&(self.rcode, self.post.key(0), self.panicked, self.findings.iter().map(|f| (&f.clause, &f.detail)).collect::<Vec<_>>()))
+    }
+}
+
+/// A state together with what the oracle derives from it (computed once per state).
+pub struct Pre {
+    pub snap: Snap,
+    pub zone: ru::Zone,
+    pub content: BTreeSet<Rr>,
+    pub inv: Vec<&'static str>,
+    pub serial: Option<u32>,
+}
+
+impl Pre {
+    pub fn new(snap: Snap) -> Pre {
+        let zone = snap.zone();
+        let content = zone.content();
+        let inv = ru::invariants(&zone);
+        let serial = zone.serial();
+        Pre { snap, zone, content, inv, serial }
+    }
 }
 
 fn rcodes_text(s: &BTreeSet<u8>) -> String {
@@ -64,24 +96,55 @@ impl Worker {
     }
 }
 
+fn slug(s: &str) -> String {
+    let mut out = String::new();
+    for c in s.chars() {
+        if c.is_ascii_alphanumeric() {
+            out.push(c.to_ascii_lowercase());
+        } else if !out.ends_with('-') {
+            out.push('-');
+        }
+    }
+    out.trim_matches('-').chars().take(60).collect()
+}
+
+fn file_of(loc: &str) -> String {
+    let l = vcore::short_loc(loc);
+    match l.rfind(':') {
+        Some(i) => l[..i].to_string(),
+        None => l,
+    }
+}
+
 /// Execute one concrete message on `env` (whose state is `pre`) and judge it.
-pub fn step(w: &Worker, env: &Env, pre: &Snap, msg: &Msg, id: u16) -> StepOut {
+pub fn step(w: &Worker, env: &Env, pre: &Pre, msg: &Msg, id: u16) -> StepOut {
     let bytes = vupd::signed_update(id, msg, &w.signer, vupd::NOW);
     let mut findings = vec![];
+    let mut observations = vec![];
 
     // reference verdict from the raw bytes and the implementation's pre-state
     let upd = ru::parse_update(&bytes).expect("reference parses the honest request");
-    let verdict = ru::process(&pre.zone(), &upd);
+    let verdict = ru::process(&pre.zone, &upd);
 
     let res = catch(|| w.rt.block_on(async { env.exchange(&bytes).await }));
     let post = w.rt.block_on(env.snapshot());
-    let mut panic = None;
+    let changed = post != pre.snap;
     let rcode = match res {
         Err(p) => {
-            let loc = vcore::short_loc(&p.loc);
-            findings.push(Finding { clause: "panic".into(), detail: loc.clone(), what: format!("handler panicked: {} at {}", p.msg, loc) });
-            panic = Some(loc);
-            None
+            // a panic kills the request; whatever else is wrong after it is a consequence
+            return StepOut {
+                rcode: None,
+                findings: vec![Finding {
+                    clause: "panic".into(),
+                    detail: format!("{}@{}", slug(&p.msg), file_of(&p.loc)),
+                    what: format!("the update handler panicked: {} at {}; zone afterwards: {:?}", p.msg, vcore::short_loc(&p.loc), post.text()),
+                }],
+                post,
+                ref_accepted: verdict.accepted(),
+                changed,
+                observations,
+                panicked: true,
+            };
         }
         Ok(Err(e)) => {
             findings.push(Finding { clause: "no-reply".into(), detail: String::new(), what: e });
@@ -89,15 +152,22 @@ pub fn step(w: &Worker, env: &Env, pre: &Snap, msg: &Msg, id: u16) -> StepOut {
         }
         Ok(Ok(r)) => Some(r.rcode),
     };
-    let changed = post != *pre;
-    let content_changed = post.content() != pre.content();
+    // what the oracle derives from the post-state (the pre-state's if nothing changed)
+    let post_derived;
+    let (post_content, post_inv, post_serial): (&BTreeSet<Rr>, &Vec<&'static str>, Option<u32>) = if changed {
+        post_derived = Pre::new(post.clone());
+        (&post_derived.content, &post_derived.inv, post_derived.serial)
+    } else {
+        (&pre.content, &pre.inv, pre.serial)
+    };
+    let content_changed = changed && *post_content != pre.content;
 
     if let Some(rc) = rcode {
-        if !verdict.accepted() {
-            if rc == ru::NOERROR {
+        if rc == ru::NOERROR {
+            if !verdict.accepted() {
                 findings.push(Finding {
                     clause: "accepted-failing".into(),
-                    detail: format!("exp={} stage={}", rcodes_text(&verdict.rcodes), verdict.stage),
+                    detail: String::new(),
                     what: format!(
                         "RFC 2136 rejects the message ({} at {}), the server answered NOERROR{}",
                         rcodes_text(&verdict.rcodes),
@@ -105,75 +175,79 @@ pub fn step(w: &Worker, env: &Env, pre: &Snap, msg: &Msg, id: u16) -> StepOut {
                         if changed { " and changed the zone" } else { "" }
                     ),
                 });
-            } else {
-                if !verdict.rcodes.contains(&rc) {
-                    findings.push(Finding {
-                        clause: "rcode".into(),
-                        detail: format!("exp={} obs={}", rcodes_text(&verdict.rcodes), ru::rcode_name(rc)),
-                        what: format!("rejected with {} where RFC 2136 gives {}", ru::rcode_name(rc), rcodes_text(&verdict.rcodes)),
-                    });
-                }
-                if changed {
-                    findings.push(Finding {
-                        clause: "rejected-but-changed".into(),
-                        detail: format!("obs={}", ru::rcode_name(rc)),
-                        what: "the message was rejected but the zone changed".into(),
-                    });
-                }
             }
-        } else if rc != ru::NOERROR {
-            findings.push(Finding {
-                clause: "rejected-valid".into(),
-                detail: format!("obs={}", ru::rcode_name(rc)),
-                what: format!("all prerequisites hold and the prescan passes, the server answered {}", ru::rcode_name(rc)),
-            });
+        } else {
+            if !verdict.rcodes.contains(&rc) {
+                findings.push(Finding {
+                    clause: "wrong-rejection".into(),
+                    detail: format!("obs={}", ru::rcode_name(rc)),
+                    what: format!("rejected with {} where RFC 2136 gives {}", ru::rcode_name(rc), rcodes_text(&verdict.rcodes)),
+                });
+            } else if verdict.rcodes.len() > 1 {
+                observations.push("obs:several-rcodes-applicable");
+            }
             if changed {
                 findings.push(Finding {
                     clause: "rejected-but-changed".into(),
-                    detail: format!("obs={}", ru::rcode_name(rc)),
-                    what: "the message was rejected but the zone changed".into(),
+                    detail: String::new(),
+                    what: format!("the message was rejected ({}) but the zone changed", ru::rcode_name(rc)),
                 });
             }
         }
     }
 
     // content + serial, only when both sides accepted
-    let pre_serial = pre.serial();
-    let post_serial = post.serial();
     if verdict.accepted() && rcode == Some(ru::NOERROR) {
-        let pc = post.content();
-        let matching: Vec<&ru::Applied> = verdict.zones.iter().filter(|z| z.zone.content() == pc).collect();
+        let pc = post_content;
+        let matching: Vec<&ru::Applied> = verdict.zones.iter().filter(|z| z.zone.content() == *pc).collect();
         if matching.is_empty() {
             let want = verdict.zones[0].zone.content();
-            let missing: Vec<String> = want.difference(&pc).map(vupd::rr_text).collect();
+            let missing: Vec<String> = want.difference(pc).map(vupd::rr_text).collect();
             let extra: Vec<String> = pc.difference(&want).map(vupd::rr_text).collect();
             findings.push(Finding {
                 clause: "content".into(),
-                detail: format!("missing={} extra={}", missing.len().min(9), extra.len().min(9)),
+                detail: String::new(),
                 what: format!("zone after the update differs from RFC 2136 3.4.2: missing {missing:?}, extra {extra:?}"),
             });
         }
-        // serial clause: which behaviours are acceptable?
-        if let (Some(s0), Some(s1)) = (pre_serial, post_serial) {
+        for m in &matching {
+            for f in &m.forks {
+                observations.push(match *f {
+                    "soa-add-equal-serial:pseudocode-replaces" => "obs:fork:soa-add-equal-serial-replaced",
+                    "soa-add-serial-2^31-apart:undefined" => "obs:fork:soa-add-serial-2^31-apart-replaced",
+                    "delete-soa-rr-off-apex:prose-deletes" => "obs:fork:soa-rr-off-apex-deleted",
+                    "delete-only-ns-rr-off-apex:prose-deletes" => "obs:fork:only-ns-rr-off-apex-deleted",
+                    _ => "obs:fork:other",
+                });
+            }
+        }
+        if verdict.zones.len() > 1 && matching.iter().any(|m| m.forks.is_empty()) {
+            observations.push("obs:fork:unforked-reading-taken");
+        }
+        // serial clause
+        if let (Some(s0), Some(s1)) = (pre.serial, post_serial) {
             let advanced = ru::serial_advanced(s0, s1);
             let stayed = s0 == s1;
-            // must_advance for a matching reference zone: content changed or the apex SOA was
-            // replaced by an Update RR carrying another serial
+            // acceptable behaviours: per matching reference zone, "advance" if the content changed
+            // or the apex SOA was replaced by an Update RR with another serial, else "stay"; a
+            // replacement whose serial relation to the old one is undefined in RFC 1982 is not judged
             let mut ok = false;
             let mut want = vec![];
-            let cands: Vec<bool> = if matching.is_empty() {
-                vec![content_changed]
-            } else {
-                matching
-                    .iter()
-                    .map(|m| content_changed || (m.soa_replaced && m.zone.serial() != Some(s0)))
-                    .collect()
-            };
-            for must_advance in cands {
-                if must_advance && advanced || !must_advance && stayed {
+            if matching.is_empty() {
+                let must = content_changed;
+                ok = must && advanced || !must && stayed;
+                want.push(if must { "advance" } else { "stay" });
+            }
+            for m in &matching {
+                if m.forks.iter().any(|f| f.contains("undefined")) {
+                    ok = true;
+                    continue;
+                }
+                let must = content_changed || (m.soa_replaced && m.zone.serial() != Some(s0));
+                if must && advanced || !must && stayed {
                     ok = true;
                 }
-                want.push(if must_advance { "advance" } else { "stay" });
+                want.push(if must { "advance" } else { "stay" });
             }
             if !ok {
                 want.sort();
@@ -198,20 +272,19 @@ pub fn step(w: &Worker, env: &Env, pre: &Snap, msg: &Msg, id: u16) -> StepOut {
                 });
             }
         }
-    } else if panic.is_none() {
-        // rejected (by either side): the serial must not move either; covered by `changed`
     }
 
-    // invariants: report on the transition that introduces the breach
-    let inv_pre: Vec<&str> = ru::invariants(&pre.zone());
-    for iv in ru::invariants(&post.zone()) {
-        if !inv_pre.contains(&iv) {
-            findings.push(Finding { clause: format!("inv:{iv}"), detail: String::new(), what: format!("zone invariant broken after the message: {iv}") });
+    // invariants: reported on the transition that introduces the breach
+    for iv in post_inv.iter() {
+        if !pre.inv.contains(iv) {
+            findings.push(Finding { clause: format!("inv:{iv}"), detail: String::new(), what: format!("zone invariant broken after the message: {iv}; zone: {:?}", post.text()) });
         }
     }
+    if post.empty_keys.len() > pre.snap.empty_keys.len() {
+        observations.push("obs:empty-rrset-key-left-behind");
+    }
 
-    let digest = fnv_str(&format!("{:?}|{}|{:?}", rcode, post.key(0), findings.iter().map(|f| (&f.clause, &f.detail)).collect::<Vec<_>>()));
-    StepOut { rcode, post, findings, ref_accepted: verdict.accepted(), changed, panic, digest }
+    StepOut { rcode, post, findings, ref_accepted: verdict.accepted(), changed, observations, panicked: false }
 }
 
 // ------------------------------------------------------------------------------------------
@@ -223,13 +296,13 @@ struct Node {
     key: u64,
 }
 
-fn case_json(cfg: &Config, history: &[Msg], msg: &Msg) -> Value {
+fn case_json(cfg_zone: &[Rr], history: &[Msg], msg: &Msg) -> Value {
     json!({
-        "initial_zone": cfg.zone.iter().map(vupd::rr_json).collect::<Vec<_>>(),
+        "initial_zone": cfg_zone.iter().map(vupd::rr_json).collect::<Vec<_>>(),
         "history": history.iter().map(|m| m.to_json()).collect::<Vec<_>>(),
         "message": msg.to_json(),
         "text": {
-            "initial_zone": cfg.zone.iter().map(vupd::rr_text).collect::<Vec<_>>(),
+            "initial_zone": cfg_zone.iter().map(vupd::rr_text).collect::<Vec<_>>(),
             "history": history.iter().map(|m| m.text()).collect::<Vec<_>>(),
             "message": msg.text(),
         }
@@ -254,40 +327,47 @@ struct Shared<'a> {
     validated: AtomicU64,
     selftest_mismatch: AtomicU64,
     selftests: AtomicU64,
+    pruned: AtomicU64,
 }
 
-/// Apply every message of `alpha` to the state of `node`; returns the successors.
-fn expand(sh: &Shared, w: &Worker, node: &Node, alpha: &[MsgSpec], l: &mut Local, want_succ: bool) -> Vec<(Node, u64)> {
+/// Apply `alpha[lo..hi]` to the state of `node`; returns the conforming state-changing successors.
+fn expand(sh: &Shared, w: &Worker, node: &Node, alpha: &[MsgSpec], lo: usize, hi: usize, l: &mut Local, want_succ: bool) -> Vec<Node> {
     let cfg = &sh.cfgs[node.cfg];
-    let (env, pre) = rebuild(w, &cfg.zone, &node.history);
-    if pre.key(cfg.serial0) != node.key {
+    let (env, snap) = rebuild(w, &cfg.zone, &node.history);
+    if snap.key(cfg.serial0) != node.key {
         sh.ctx.machinery_failure(&format!("replaying a history gave another state than its first execution (cfg {})", cfg.name));
         return vec![];
     }
+    let pre = Pre::new(snap);
     let saved = w.rt.block_on(env.save());
-    let cur = pre.serial().unwrap_or(0);
+    let cur = pre.serial.unwrap_or(0);
     let mut succ = vec![];
-    for (mi, spec) in alpha.iter().enumerate() {
-        let msg = spec.materialise(cur);
-        let out = step(w, &env, &pre, &msg, 1000 + (mi % 60000) as u16);
+    for mi in lo..hi {
+        let msg = alpha[mi].materialise(cur);
+        let id = 1000 + (mi % 60000) as u16;
+        let out = step(w, &env, &pre, &msg, id);
         l.eval();
         sh.validated.fetch_add(1, Ordering::Relaxed);
-        classify(sh, w, cfg, &node.history, &pre, &msg, &out, l);
-        // determinism / "restore == rebuild" self-test on a fixed slice
-        if (node.key ^ mi as u64) % 257 == 0 {
+        classify(sh, w, cfg, node, &pre, &msg, &out, l);
+        // self-test on a fixed slice: the same transition on a handler rebuilt from the history
+        // (no store put-back involved) must look exactly the same
+        if (node.key ^ (mi as u64).wrapping_mul(0x9e3779b97f4a7c15)) % 127 == 0 {
             sh.selftests.fetch_add(1, Ordering::Relaxed);
-            let (env2, pre2) = rebuild(w, &cfg.zone, &node.history);
-            let out2 = step(w, &env2, &pre2, &msg, 1000 + (mi % 60000) as u16);
-            if out2.digest != out.digest {
+            let (env2, snap2) = rebuild(w, &cfg.zone, &node.history);
+            let out2 = step(w, &env2, &Pre::new(snap2), &msg, id);
+            if out2.digest() != out.digest() {
                 sh.selftest_mismatch.fetch_add(1, Ordering::Relaxed);
             }
         }
         if out.changed {
             if want_succ {
-                let k = out.post.key(cfg.serial0);
-                let mut h = node.history.clone();
-                h.push(msg.clone());
-                succ.push((Node { cfg: node.cfg, history: h, key: k }, k ^ (node.cfg as u64).wrapping_mul(0x9e3779b97f4a7c15)));
+                if out.findings.is_empty() && !out.panicked && ru::invariants(&out.post.zone()).is_empty() {
+                    let mut h = node.history.clone();
+                    h.push(msg.clone());
+                    succ.push(Node { cfg: node.cfg, history: h, key: out.post.key(cfg.serial0) });
+                } else {
+                    sh.pruned.fetch_add(1, Ordering::Relaxed);
+                }
             }
             w.rt.block_on(env.restore(&saved));
         }
@@ -295,8 +375,8 @@ fn expand(sh: &Shared, w: &Worker, node: &Node, alpha: &[MsgSpec], l: &mut Local
     succ
 }
 
-fn classify(sh: &Shared, w: &Worker, cfg: &Config, history: &[Msg], pre: &Snap, msg: &Msg, out: &StepOut, l: &mut Local) {
-    // outcome classes + non-trivial rule
+fn classify(sh: &Shared, w: &Worker, cfg: &Config, node: &Node, pre: &Pre, msg: &Msg, out: &StepOut, l: &mut Local) {
+    let history = &node.history;
     let class = match (out.ref_accepted, out.rcode) {
         (_, None) => "no-rcode",
         (true, Some(0)) => {
@@ -311,33 +391,30 @@ fn classify(sh: &Shared, w: &Worker, cfg: &Config, history: &[Msg], pre: &Snap, 
         (false, Some(_)) => "rejected",
     };
     l.outcome(class);
+    for o in &out.observations {
+        l.outcome(o);
+    }
     if out.ref_accepted && out.changed {
-        l.nontrivial(fnv_str(&format!("{}|{}", pre.key(cfg.serial0), msg.text())));
+        l.nontrivial(vupd::digest(&(node.cfg, node.key, msg)));
     } else if !out.ref_accepted && !history.is_empty() && !msg.prereqs.is_empty() {
         // rejected by a prerequisite whose outcome depends on an earlier message of the history:
-        // the same message is not rejected the same way on the initial zone
-        let v0 = ru::process(
-            &ru::Zone { origin: ru::name_from_str(vupd::ORIGIN), class: ru::CLASS_IN, rrs: cfg.zone.clone() },
-            &ru::Update { zname: ru::name_from_str(vupd::ORIGIN), ztype: ru::T_SOA, zclass: ru::CLASS_IN, prereqs: msg.prereqs.clone(), updates: msg.updates.clone() },
-        );
-        if v0.accepted() {
-            l.nontrivial(fnv_str(&format!("{}|{}", pre.key(cfg.serial0), msg.text())));
+        // the same prerequisites hold on the initial zone
+        let z0 = ru::Zone { origin: ru::name_from_str(vupd::ORIGIN), class: ru::CLASS_IN, rrs: cfg.zone.clone() };
+        let u = ru::Update { zname: ru::name_from_str(vupd::ORIGIN), ztype: ru::T_SOA, zclass: ru::CLASS_IN, prereqs: msg.prereqs.clone(), updates: vec![] };
+        if ru::prerequisite_errors(&z0, &u).is_empty() && !ru::prerequisite_errors(&pre.zone, &u).is_empty() {
+            l.nontrivial(vupd::digest(&(node.cfg, node.key, msg)));
             l.outcome("rejected-by-history-dependent-prerequisite");
         }
     }
-    if !pre.empty_keys.is_empty() {
+    if !pre.snap.empty_keys.is_empty() {
         l.outcome("obs:pre-state-has-empty-rrset-key");
     }
-    if out.post.empty_keys.len() > pre.empty_keys.len() {
-        l.outcome("obs:empty-rrset-key-left-behind");
-    }
     for f in &out.findings {
-        let key = sh.keyer.key(w, f, pre, msg);
+        let key = sh.keyer.key(w, f, &pre.snap, msg);
         l.violation(&key, &f.what, || {
-            let mut j = case_json(cfg, history, msg);
+            let mut j = case_json(&cfg.zone, history, msg);
             j["clause"] = json!(f.clause);
-            j["detail"] = json!(f.detail);
-            j["pre_state"] = json!(pre.text());
+            j["pre_state"] = json!(pre.snap.text());
             j["post_state"] = json!(out.post.text());
             j["rcode"] = json!(out.rcode.map(ru::rcode_name));
             j
@@ -351,7 +428,7 @@ fn axfr_agrees(w: &Worker, env: &Env, snap: &Snap) -> Result<(), String> {
     let r = catch(|| w.rt.block_on(async { env.exchange(&q).await })).map_err(|p| format!("panic {}", p.msg))??;
     let mut got: Vec<Rr> = r.answers.clone();
     // leading and trailing SOA
-    if got.len() >= 2 && got[0].rtype == ru::T_SOA && got[got.len() - 1].rtype == ru::T_SOA {
+    if got.len() >= 2 && got[0].rtype == ru::T_SOA && got[got.len() - 1] == got[0] {
         got.pop();
     }
     got.sort();
@@ -361,6 +438,14 @@ fn axfr_agrees(w: &Worker, env: &Env, snap: &Snap) -> Result<(), String> {
         return Err(format!("AXFR lists {:?}, records() has {:?}", got.iter().map(vupd::rr_text).collect::<Vec<_>>(), snap.text()));
     }
     Ok(())
+}
+
+struct Task {
+    node: usize,
+    alpha: usize,
+    lo: usize,
+    hi: usize,
+    want_succ: bool,
 }
 
 fn main() {
@@ -374,47 +459,74 @@ fn main() {
             let zone: Vec<Rr> = case["initial_zone"].as_array().map(|a| a.iter().map(vupd::rr_from_json).collect()).unwrap_or_default();
             let history: Vec<Msg> = case["history"].as_array().map(|a| a.iter().map(Msg::from_json).collect()).unwrap_or_default();
             let msg = Msg::from_json(&case["message"]);
-            let (env, pre) = rebuild(&w, &zone, &history);
+            let (env, snap) = rebuild(&w, &zone, &history);
+            let pre = Pre::new(snap);
             let out = step(&w, &env, &pre, &msg, 1000);
             l.eval();
             for f in &out.findings {
-                let key = keyer.key(&w, f, &pre, &msg);
-                l.violation(&key, &f.what, || json!({"initial_zone": case["initial_zone"], "history": case["history"], "message": case["message"], "post_state": out.post.text()}));
+                let key = keyer.key(&w, f, &pre.snap, &msg);
+                l.violation(&key, &f.what, || {
+                    let mut j = case_json(&zone, &history, &msg);
+                    j["post_state"] = json!(out.post.text());
+                    j
+                });
             }
-            eprintln!("replay: rcode={:?} post={:?} findings={:?}", out.rcode.map(ru::rcode_name), out.post.text(), out.findings);
+            eprintln!("replay: pre={:?} rcode={:?} post={:?} findings={:?}", pre.snap.text(), out.rcode.map(ru::rcode_name), out.post.text(), out.findings);
         });
         ctx.finish(false);
     }
 
     let cfgs = alphabet::configs(thorough);
-    let m1 = alphabet::m1(thorough);
-    let m1_core = alphabet::m1_core();
-    let m2 = alphabet::m2(thorough);
-    ctx.set("alphabet_m1", json!(m1.len()));
-    ctx.set("alphabet_m1_core", json!(m1_core.len()));
-    ctx.set("alphabet_m2", json!(m2.len()));
+    let mut alphas: Vec<Vec<MsgSpec>> = vec![alphabet::m1(), alphabet::m1_core(), alphabet::m1_serial(), alphabet::m2(thorough)];
+    // VERIF_SEED only permutes the enumeration order (a rotation of every alphabet)
+    for a in alphas.iter_mut() {
+        let n = a.len();
+        a.rotate_left((ctx.seed as usize).wrapping_mul(7919) % n);
+        if ctx.seed % 2 == 1 {
+            a.reverse();
+        }
+    }
+    const A_M1: usize = 0;
+    const A_CORE: usize = 1;
+    const A_SERIAL: usize = 2;
+    const A_M2: usize = 3;
+    ctx.set("alphabet_m1", json!(alphas[A_M1].len()));
+    ctx.set("alphabet_m1_core", json!(alphas[A_CORE].len()));
+    ctx.set("alphabet_m1_serial", json!(alphas[A_SERIAL].len()));
+    ctx.set("alphabet_m2", json!(alphas[A_M2].len()));
+    ctx.set("prerequisite_atoms", json!(alphabet::prereq_atoms().len()));
+    ctx.set("update_atoms", json!(alphabet::update_atoms().len()));
     ctx.set("configs", json!(cfgs.iter().map(|c| c.name.clone()).collect::<Vec<_>>()));
     ctx.set_rule(
         "E-STATE over histories of signed UPDATE messages on the real Catalog -> SqliteZoneHandler (journal off). Universe: origin z., owners \
-         {z., a.z., b.z., a.a.z., *.z., x.o.(out)}, types {A,TXT,CNAME,NS,SOA,ANY + meta AXFR/MAILB}, RDATA A{.1,.2} TXT{t} CNAME{a.z.,b.z.} \
-         NS{n1.o.,n2.o.} SOA serial {cur-1,cur,cur+1,cur+2,cur+2^31-1,cur+2^31}, TTL {0,60}. M1 = (<=1 prerequisite atom) x (<=1 update atom) \
-         over every form of RFC 2136 tables 3.2.4 / 3.4.2.6 plus malformed variants; M1-core = the same product over a sub-alphabet; \
-         M2 = (<=2 prerequisites) x (<=3 updates) in every order over a sub-alphabet. Roots = initial zones x initial serial \
-         {1, 2^31-1, 2^32-2}. BFS with M1 to the tier's depth, then M1-core to its depth, M2 applied as one further step from every state up to \
-         its depth; canonical key = zone content + empty RRset keys + serial delta. Oracle per transition: vref::update (RFC 2136 \
-         3.2/3.4 pseudocode, RFC 1982) on the raw request bytes and the implementation's pre-state: rcode in the acceptable set, rejected => \
-         unchanged, accepted => zone equals an acceptable reference zone, invariants (one SOA, apex NS, CNAME alone), serial strictly advanced iff \
-         content changed. Non-trivial = distinct (state, message) with an accepted zone-changing update or a rejection by a prerequisite that \
-         holds on the initial zone.",
+         {z., a.z., b.z., a.a.z., x.o.(out)} (+ *.z. in one initial zone), types {A,TXT,CNAME,NS,SOA,ANY + meta AXFR/MAILB}, RDATA A{.1,.2} TXT{t} \
+         CNAME{a.z.,b.z.} NS{n1.o.,n2.o.} SOA serial {cur-1,cur,cur+1,cur+2,cur+2^31-1,cur+2^31}, TTL {0,60}. M1 = (<=1 prerequisite atom) x \
+         (<=1 update atom) over every form of RFC 2136 tables 3.2.4 / 3.4.2.6 plus malformed variants; M1-core / M1-serial = the same product \
+         over sub-alphabets; M2 = (<=2 prerequisites) x (<=3 updates) in every order over a sub-alphabet. Roots = 4 initial zones at serial 1 \
+         and a zone at serials 2^31-1 and 2^32-2. BFS: full M1 from every state up to the tier's full depth, M1-core below it to the tier's \
+         core depth, M2 as one further step from every state up to its depth; canonical key = zone content + empty RRset keys + serial \
+         delta; only conforming successors are expanded. Oracle per transition: vref::update (RFC 2136 3.2/3.4 pseudocode, RFC 1982) on the \
+         raw request bytes and the implementation's pre-state: rcode in the acceptable set, rejected => unchanged, accepted => zone equals an \
+         acceptable reference zone, invariants (one SOA, apex NS, CNAME alone), serial strictly advanced iff content changed. Non-trivial = \
+         distinct (state, message) with an accepted zone-changing update or a rejection by a prerequisite that holds on the initial zone.",
     );
     ctx.assume("vref::update is the RFC 2136 3.2-3.4 / RFC 1982 reference; where prose and pseudocode disagree or precedence is not fixed it accepts every reading");
     ctx.assume("the only state update() reads is the record store (journal off, DNSSEC off): putting the saved store content back after a message equals rebuilding from the history (self-tested on a fixed slice of transitions)");
     ctx.assume("TSIG signing/verification is correct for honest requests (C13)");
 
-    let sh = Shared { ctx: &ctx, cfgs: &cfgs, keyer: keying::Keyer::new(), validated: AtomicU64::new(0), selftest_mismatch: AtomicU64::new(0), selftests: AtomicU64::new(0) };
+    let sh = Shared {
+        ctx: &ctx,
+        cfgs: &cfgs,
+        keyer: keying::Keyer::new(),
+        validated: AtomicU64::new(0),
+        selftest_mismatch: AtomicU64::new(0),
+        selftests: AtomicU64::new(0),
+        pruned: AtomicU64::new(0),
+    };
 
     // roots
-    let mut roots = vec![];
+    let mut frontier: Vec<Node> = vec![];
+    let mut seen: HashSet<(usize, u64)> = HashSet::new();
     {
         let w = Worker::new();
         for (ci, cfg) in cfgs.iter().enumerate() {
@@ -428,55 +540,99 @@ fn main() {
                 ctx.machinery_failure(&format!("AXFR of the initial zone {}: {e}", cfg.name));
             }
             let k = snap.key(cfg.serial0);
-            roots.push((Node { cfg: ci, history: vec![], key: k }, k ^ (ci as u64).wrapping_mul(0x9e3779b97f4a7c15)));
+            seen.insert((ci, k));
+            frontier.push(Node { cfg: ci, history: vec![], key: k });
         }
     }
 
-    // depth plan: nodes at depth d < d_full are expanded with the full M1 alphabet, nodes at depth
-    // d_full <= d < d_core with M1-core; M2 is applied (as one further step, successors judged but
-    // not expanded) from every node at depth <= d_m2. Roots marked serial_focus use M1-serial.
-    let (d_full, d_core, d_m2) = if thorough { (2usize, 4usize, 1usize) } else { (1, 3, 0) };
+    // depth plan: a state at depth d (= history length) gets the full M1 alphabet if d < d_full,
+    // M1-core if d_full <= d < d_core, nothing at d = d_core; M2 (one further step, successors
+    // judged but not expanded) if d <= d_m2. Roots marked serial_focus use M1-serial throughout.
+    let (d_full, d_core, d_m2): (usize, usize, i32) = if thorough { (2, 5, 1) } else { (1, 3, 0) };
     ctx.set("depth_m1_full", json!(d_full));
     ctx.set("depth_m1_core", json!(d_core));
-    ctx.set("depth_m2_from", json!(d_m2));
-    let m1_serial = alphabet::m1_serial();
-    ctx.set("alphabet_m1_serial", json!(m1_serial.len()));
-
-    let all_states: std::sync::Mutex<Vec<Node>> = std::sync::Mutex::new(roots.iter().map(|(n, _)| n.clone()).collect());
+    ctx.set("depth_m2_from_states_up_to", json!(d_m2));
     let max_depth = d_core.max(d_full);
-    let stats = vcore::bfs(&ctx, roots, max_depth, |node: &Node, l| {
-        thread_local! { static W: Worker = Worker::new(); }
-        W.with(|w| {
-            let d = node.history.len();
-            let cfg = &sh.cfgs[node.cfg];
-            let alpha: &[MsgSpec] = if cfg.serial_focus {
-                &m1_serial
-            } else if d < d_full {
-                &m1
-            } else {
-                &m1_core
-            };
-            let succ = expand(&sh, w, node, alpha, l, true);
-            if d <= d_m2 && !cfg.serial_focus {
-                let _ = expand(&sh, w, node, &m2, l, false);
-            }
-            all_states.lock().unwrap().extend(succ.iter().map(|(n, _)| n.clone()));
-            succ
-        })
-    });
-    ctx.set("bfs_per_depth_states", json!(stats.per_depth));
-    ctx.set("depth", json!(stats.depth_completed));
-    ctx.set("fixpoint", json!(stats.fixpoint));
-    ctx.traces_validated.store(sh.validated.load(Ordering::SeqCst), Ordering::SeqCst);
-    // transitions as counted by bfs() are the state-changing ones; all executed transitions:
-    ctx.transitions.store(sh.validated.load(Ordering::SeqCst), Ordering::SeqCst);
-    ctx.set("state_changing_transitions", json!(stats.transitions));
 
-    // AXFR cross-check on a deterministic sub-grid of the states found (every state in quick)
+    let mut all_states: Vec<Node> = frontier.clone();
+    let mut per_depth = vec![frontier.len() as u64];
+    let mut depth = 0usize;
+    let mut state_changing = 0u64;
+    const CHUNK: usize = 256;
+    while !frontier.is_empty() && depth < max_depth {
+        if ctx.out_of_time() {
+            ctx.cap(&format!("wall-clock budget reached at BFS depth {depth}"));
+            break;
+        }
+        let mut tasks: Vec<Task> = vec![];
+        for (ni, n) in frontier.iter().enumerate() {
+            let cfg = &cfgs[n.cfg];
+            let a = if cfg.serial_focus {
+                A_SERIAL
+            } else if depth < d_full {
+                A_M1
+            } else {
+                A_CORE
+            };
+            let mut push = |alpha: usize, want_succ: bool| {
+                let n = alphas[alpha].len();
+                let mut lo = 0;
+                while lo < n {
+                    tasks.push(Task { node: ni, alpha, lo, hi: (lo + CHUNK).min(n), want_succ });
+                    lo += CHUNK;
+                }
+            };
+            push(a, true);
+            if (depth as i32) <= d_m2 && !cfg.serial_focus {
+                push(A_M2, false);
+            }
+        }
+        let results: Mutex<Vec<(u64, Vec<Node>)>> = Mutex::new(vec![]);
+        let fr = &frontier;
+        ctx.par_run_init(
+            tasks.len() as u64,
+            1,
+            |_| Worker::new(),
+            |i, l, w| {
+                let t = &tasks[i as usize];
+                let succ = expand(&sh, w, &fr[t.node], &alphas[t.alpha], t.lo, t.hi, l, t.want_succ);
+                if !succ.is_empty() {
+                    results.lock().unwrap().push((i, succ));
+                }
+            },
+        );
+        let mut results = results.into_inner().unwrap();
+        results.sort_by_key(|r| r.0);
+        let mut next = vec![];
+        for (_, succ) in results {
+            for n in succ {
+                state_changing += 1;
+                if seen.insert((n.cfg, n.key)) {
+                    next.push(n);
+                }
+            }
+        }
+        depth += 1;
+        if std::env::var("VERIF_TRACE").is_ok() {
+            eprintln!("[C12] level {} done: {} tasks, {} new states, {} transitions so far, {:.1}s", depth, tasks.len(), next.len(), sh.validated.load(Ordering::Relaxed), ctx.elapsed_s());
+        }
+        per_depth.push(next.len() as u64);
+        all_states.extend(next.iter().cloned());
+        frontier = next;
+    }
+    let fixpoint = frontier.is_empty();
+    ctx.states.store(seen.len() as u64, Ordering::SeqCst);
+    ctx.transitions.store(sh.validated.load(Ordering::SeqCst), Ordering::SeqCst);
+    ctx.traces_validated.store(sh.validated.load(Ordering::SeqCst), Ordering::SeqCst);
+    ctx.set("bfs_states_per_depth", json!(per_depth));
+    ctx.set("depth", json!(depth));
+    ctx.set("fixpoint", json!(fixpoint));
+    ctx.set("conforming_state_changing_transitions", json!(state_changing));
+    ctx.set("successors_not_expanded_after_a_violating_transition", json!(sh.pruned.load(Ordering::SeqCst)));
+
+    // AXFR cross-check on a deterministic sub-grid of the states found
     {
-        let states = all_states.into_inner().unwrap();
-        let mut seen = std::collections::HashSet::new();
-        let picked: Vec<&Node> = states.iter().filter(|n| seen.insert((n.cfg, n.key))).filter(|n| n.key % 16 == 0 || n.history.len() <= 1).collect();
+        let picked: Vec<&Node> = all_states.iter().filter(|n| n.key % 16 == 0 || n.history.len() <= 1).collect();
         ctx.set("axfr_cross_checked_states", json!(picked.len()));
         ctx.par_run_init(picked.len() as u64, 8, |_| Worker::new(), |i, l, w| {
             let n = picked[i as usize];
@@ -485,7 +641,7 @@ fn main() {
             l.eval();
             match axfr_agrees(w, &env, &snap) {
                 Ok(()) => l.outcome("axfr-agrees"),
-                Err(e) => l.violation("axfr-differs-from-records", &e, || case_json(cfg, &n.history, &Msg::default())),
+                Err(e) => l.violation("axfr-differs-from-records", &e, || case_json(&cfg.zone, &n.history, &Msg::default())),
             }
         });
     }
@@ -498,20 +654,24 @@ fn main() {
     if st == 0 {
         ctx.machinery_failure("determinism self-test did not run");
     }
-    for class in ["applied-changing", "applied-noop", "rejected", "rejected-by-history-dependent-prerequisite"] {
+    for class in ["applied-changing", "applied-noop", "rejected", "rejected-by-history-dependent-prerequisite", "obs:several-rcodes-applicable"] {
         if ctx.outcome_count(class) == 0 {
             ctx.machinery_failure(&format!("vacuous run: outcome class {class} never exercised"));
         }
     }
     ctx.with_local(|l| {
-        for c in cfgs.iter().take(3) {
+        for c in cfgs.iter().take(4) {
             l.sample(json!({"config": c.name, "zone": c.zone.iter().map(vupd::rr_text).collect::<Vec<_>>()}));
         }
-        for m in m1.iter().step_by((m1.len() / 6).max(1)) {
-            l.sample(json!({"m1_message": m.materialise(1).text()}));
+        for a in [A_M1, A_M2] {
+            for m in alphas[a].iter().step_by((alphas[a].len() / 5).max(1)) {
+                l.sample(json!({"message": m.materialise(1).text()}));
+            }
+        }
+        if let Some(n) = all_states.last() {
+            l.sample(json!({"deepest_history": n.history.iter().map(|m| m.text()).collect::<Vec<_>>()}));
         }
     });
-    // depth-bounded, not a fixpoint: exhaustive over the declared bounded space
+    // depth-bounded (the serial delta is part of the key): exhaustive over the declared bounded space
     ctx.finish(true);
 }
-
